@@ -1537,3 +1537,63 @@ var (
 	errCtorMemo = map[*ssa.Function]bool{}
 	errCtorBusy = map[*ssa.Function]bool{}
 )
+
+// elementCounterBase: ph is a counter that starts at 0 and is advanced by one inside a loop that ranges over a
+// slice (nothing else changes it). Returns the slice ranged over (nil if ph is not such a counter).
+func elementCounterBase(ph *ssa.Phi) ssa.Value {
+	incs := counterIncrements(ph)
+	if len(incs) == 0 {
+		return nil
+	}
+	// the range loop whose header holds the counter: its index phi and the slice indexed with it
+	for _, in := range ph.Block().Instrs {
+		ip, ok := in.(*ssa.Phi)
+		if !ok {
+			break
+		}
+		if ip.Comment != "rangeindex" {
+			continue
+		}
+		var base ssa.Value
+		for _, b := range ph.Parent().Blocks {
+			for _, x := range b.Instrs {
+				ia, ok := x.(*ssa.IndexAddr)
+				if !ok {
+					continue
+				}
+				if bo, ok := ia.Index.(*ssa.BinOp); ok && bo.X == ssa.Value(ip) && ph.Block().Dominates(b) {
+					base = ia.X
+				}
+			}
+		}
+		return base
+	}
+	return nil
+}
+
+// counterIncrements: the `ph + 1` values feeding the loop-header phi ph, whose other edges are the constant 0 and ph
+// itself; nil if any edge is something else.
+func counterIncrements(ph *ssa.Phi) []*ssa.BinOp {
+	if !isLoopHeaderPhi(ph) {
+		return nil
+	}
+	var incs []*ssa.BinOp
+	zero := false
+	for _, e := range ph.Edges {
+		switch {
+		case isIntConst(e, 0):
+			zero = true
+		case e == ssa.Value(ph):
+		default:
+			bo, ok := e.(*ssa.BinOp)
+			if !ok || bo.Op != token.ADD || bo.X != ssa.Value(ph) || !isIntConst(bo.Y, 1) {
+				return nil
+			}
+			incs = append(incs, bo)
+		}
+	}
+	if !zero {
+		return nil
+	}
+	return incs
+}
